@@ -1,0 +1,8 @@
+//! Verification hooks (feature `verif` only): re-exports of private items so that external
+//! harness crates can reach them. Nothing here changes behaviour; the module does not exist
+//! unless the `verif` feature is enabled.
+pub use crate::geom2::align2::verif_point_surface_jacobian as point_surface_jacobian;
+pub use crate::geom2::polyline2::verif_cast_ray as cast_ray;
+pub use crate::geom3::align3::{verif_to_matrix as to_matrix, verif_to_wpr as to_wpr};
+pub use crate::geom3::mesh::verif_edges as edges;
+pub use crate::geom3::mesh::verif_box_geom as box_geom;
